@@ -74,10 +74,14 @@ func astShortName(pkg *packages.Package, fd *ast.FuncDecl) string {
 		return ""
 	}
 	sig := obj.Type().(*types.Signature)
+	name := rel + "." + obj.Name()
 	if r := sig.Recv(); r != nil {
-		return rel + "." + recvString(r.Type()) + "." + obj.Name()
+		name = rel + "." + recvString(r.Type()) + "." + obj.Name()
 	}
-	return rel + "." + obj.Name()
+	if old, ok := Alias[name]; ok {
+		return old
+	}
+	return name
 }
 
 // InlineNewHelpers computes the overlay for one round of inlining. It returns
